@@ -45,8 +45,25 @@ func (c *Case) ModuleMap() *ugo.ModuleMap {
 	if c.Builtin {
 		mm.AddBuiltinModule("strings", ugostrings.Module)
 		mm.AddBuiltinModule("time", ugotime.Module)
+		mm.AddBuiltinModule("vmod", VMod())
 	}
 	return mm
+}
+
+// VMod is a builtin (Go) module whose attributes are mutable containers of every kind a script
+// can update IN PLACE (array, map, bytes, nested containers, sync-map) next to scalars and a
+// function: each VM must get its own deep copy of all of them (C08), and no run may write
+// through to the module constant of the Bytecode (C07).  A fresh value per call.
+func VMod() map[string]ugo.Object {
+	return map[string]ugo.Object{
+		"n":    ugo.Int(1),
+		"arr":  ugo.Array{ugo.Int(0), ugo.Int(0), ugo.Int(0)},
+		"m":    ugo.Map{"k": ugo.Int(0)},
+		"by":   ugo.Bytes{0, 0, 0, 0},
+		"deep": ugo.Map{"a": ugo.Array{ugo.Map{"x": ugo.Int(0)}, ugo.Bytes{7}}},
+		"sm":   &ugo.SyncMap{Value: ugo.Map{"k": ugo.Int(0)}},
+		"inc":  &ugo.Function{Name: "inc", Value: func(args ...ugo.Object) (ugo.Object, error) { return ugo.Int(len(args) + 1), nil }},
+	}
 }
 
 // Compile compiles the case with the real compiler.
@@ -166,10 +183,19 @@ type Diff struct {
 
 // RunConcurrent runs bc on n goroutines (each: its own VMs, its own globals, k runs)
 // and reports every result that differs from the solo result for the same arguments.
+//
+// The solo results are computed on a SEPARATE compilation of the same script: the Bytecode the
+// goroutines share is executed for the first time by the concurrent phase itself, so that state
+// initialised lazily on first use (caches, memo tables hanging off shared objects) is initialised
+// concurrently and not warmed up by the solo runs.
 func RunConcurrent(c *Case, bc *ugo.Bytecode, n, k int) (solo []string, diffs []Diff) {
 	solo = make([]string, n)
+	soloBc := bc
+	if fresh, _, err := c.CompileAny(); err == nil {
+		soloBc, bc = bc, fresh
+	}
 	for i := 0; i < n; i++ {
-		solo[i] = RunOne(bc, c.Recover, i)
+		solo[i] = RunOne(soloBc, c.Recover, i)
 	}
 	res := make([][]string, n)
 	var wg sync.WaitGroup
@@ -328,6 +354,33 @@ func builtinModules(r *gen.Rand) *Case {
 	return &Case{Family: "builtin-modules", Src: sb.String(), Builtin: true}
 }
 
+// builtinContainers: every VM updates the container attributes of its copy of `vmod` in place, by
+// amounts that depend on its own arguments, and returns what it sees; the solo result is the
+// result of a VM that is alone with a pristine module.
+func builtinContainers(r *gen.Rand) *Case {
+	var sb strings.Builder
+	sb.WriteString(hdr)
+	sb.WriteString("v := import(\"vmod\")\nout := []\n")
+	ops := []string{
+		"v.arr[0] += n + 1\nv.arr[2] = s\n",
+		"v.m.k += n + 1\nv.m[s] = n\n",
+		"v.by[0] = n + 1\nv.by[3] = 255 - n\n",
+		"v.deep.a[0].x += n + 1\nv.deep.a[1][0] = n + 9\n",
+		"v.sm.k = n + 1\nv.sm[s] = n\n",
+		"v.n += n\n",
+		"w := import(\"vmod\")\nw.arr[1] = n + 5\nout = append(out, v.arr[1])\n",
+	}
+	k := 2 + r.Intn(5)
+	for i := 0; i < k; i++ {
+		sb.WriteString(ops[r.Intn(len(ops))])
+	}
+	if r.Bool() {
+		sb.WriteString("for i := 0; i < 50; i++ { v.arr[1] += 1; v.by[1] = (v.by[1] + 1) % 200; v.m.k += 1 }\n")
+	}
+	sb.WriteString("out = append(out, v.n, v.arr, v.m.k, v.by, v.deep.a[0].x, v.deep.a[1], v.sm.k, v.inc(1, 2))\nreturn out\n")
+	return &Case{Family: "builtin-containers", Src: sb.String(), Builtin: true}
+}
+
 func errorsTraces(r *gen.Rand) *Case {
 	depth := 1 + r.Intn(4)
 	mods := map[string]string{
@@ -397,7 +450,7 @@ func generated(r *gen.Rand) *Case {
 
 // Generate returns n cases drawn from all families.
 func Generate(r *gen.Rand, n int) []*Case {
-	fams := []func(*gen.Rand) *Case{closures, srcModules, builtinModules, errorsTraces, callbacks, generated, generated}
+	fams := []func(*gen.Rand) *Case{closures, srcModules, builtinModules, builtinContainers, errorsTraces, callbacks, generated, generated}
 	var cs []*Case
 	for i := 0; i < n; i++ {
 		f := fams[i%len(fams)]
